@@ -1,6 +1,7 @@
 package harness
 
 import (
+	"strings"
 	"fmt"
 	"testing"
 	"time"
@@ -51,7 +52,7 @@ func drawC04(t *rapid.T) *c04Scenario {
 	for i := 0; i < 6; i++ {
 		s.Stages = append(s.Stages, rapid.SampledFrom(stages).Draw(t, "stage"))
 		s.Choices = append(s.Choices, rapid.IntRange(0, 11).Draw(t, "choice"))
-		s.ZeroRes = append(s.ZeroRes, rapid.SampledFrom([]string{"", "", "memory", "pods", gen.GPU}).Draw(t, "zeroRes"))
+		s.ZeroRes = append(s.ZeroRes, rapid.SampledFrom([]string{"", "", "memory", "pods", gen.GPU, "absent:memory", "absent:" + gen.GPU, "absent:*", "absent:cpu"}).Draw(t, "zeroRes"))
 	}
 	n := rapid.IntRange(0, 3).Draw(t, "nExtra")
 	for i := 0; i < n; i++ {
@@ -133,7 +134,11 @@ func execC04(s *c04Scenario, c *ev.Ctx) {
 		if z := s.ZeroRes[i%len(s.ZeroRes)]; z != "" && stage != sim.StageInitialized && stage != stageBound {
 			zero = []string{z}
 		}
-		node := w.JoinNode(nc, sim.JoinOpts{Ready: false, ZeroResources: zero})
+		var absent []string
+		if len(zero) == 1 && strings.HasPrefix(zero[0], "absent:") {
+			absent, zero = []string{strings.TrimPrefix(zero[0], "absent:")}, nil
+		}
+		node := w.JoinNode(nc, sim.JoinOpts{Ready: false, ZeroResources: zero, AbsentResources: absent})
 		if stage == sim.StageUnregistered {
 			continue
 		}
